@@ -66,12 +66,22 @@ func (e *Engine) fmtValue(st *State, v Value, verb byte) *Term {
 			}
 			return FreshVar("fmt.int", SString, 0)
 		}
+	case Bytes:
+		if x.Hex && verb == 'x' {
+			return x.S
+		}
+		if !x.Hex && (verb == 's' || verb == 'v') {
+			return x.S
+		}
 	case Iface:
 		if x.T == nil {
 			return StrC("<nil>")
 		}
 		if m, ok := e.errorMsg(st, x); ok {
 			return m
+		}
+		if b, ok := x.V.(Bytes); ok {
+			return e.fmtValue(st, b, verb)
 		}
 		if t, ok := x.V.(*Term); ok {
 			// named string / int types with String() methods are not invoked (over-approx)
